@@ -9,6 +9,8 @@
 //!   k<d>:<f>         delete folder
 //!   z<d>:<f>         compact folder                w<d>:<f>      change folder password
 //!   o<d>             sign out and sign in again    s<d>          sync with the server
+//!   h<d>:<f>:<src>   forced overwrite: device d replaces folder f by device src's whole log
+//!                    (ForceMerge::force_merge_folder, what a hard conflict does)
 //!   t:<n>            set the clock to base + n ms (requires --cfg sos_verif)
 //! After every step, for every device and the server, the harness prints the event logs as
 //! token sequences (a token names a commit hash at first sight) and, for devices, every
@@ -512,6 +514,26 @@ impl World {
                         res!(r)
                     }
                 }
+            }
+            "h" => {
+                use sos_core::events::patch::{FolderDiff, FolderPatch};
+                use sos_sync::ForceMerge;
+                let Some(fid) = self.fslots.get(parts[1]).copied() else { return "nofolder".into() };
+                let src: usize = parts.get(2).and_then(|x| x.parse().ok()).unwrap_or(0);
+                if src >= self.devs.len() || src == d { return "badsrc".into(); }
+                let diff = {
+                    let sacct = self.devs[src].bridge.account.clone();
+                    let sa = sacct.lock().await;
+                    let Ok(log) = sa.folder_log(&fid).await else { return "unknownfolder".into() };
+                    let log = log.read().await;
+                    let Ok(records) = log.diff_records(None).await else { return "err:diff".into() };
+                    let Ok(head) = log.tree().head() else { return "err:head".into() };
+                    FolderDiff { last_commit: None, checkpoint: head, patch: FolderPatch::new(records) }
+                };
+                let mut account = acct.lock().await;
+                if account.folder(&fid).await.is_err() { return "unknownfolder".into(); }
+                let mut outcome = sos_sync::MergeOutcome::default();
+                res!(account.force_merge_folder(&fid, diff, &mut outcome).await)
             }
             "o" => {
                 let mut account = acct.lock().await;
